@@ -371,12 +371,29 @@ pub fn run(tier: Tier) -> Run {
             run.add(viol("C17:literal:payload", format!("literal/id payload {} does not round-trip", v), json!({"kind": "c17-payload", "value": v})));
         }
     }
-    for s in ["", "a", "abcd", "é€😀"] {
+    // every string over {'a', NUL, ' ', 'é'} up to length 3 (leading / trailing / interior NUL and blanks included: the
+    // payload is carried as it is, encoding rules are the assembler's business), plus long and wide ones
+    let mut strs: Vec<String> = vec![String::new()];
+    let mut layer: Vec<String> = vec![String::new()];
+    for _ in 0..3 {
+        let mut next = vec![];
+        for p in &layer {
+            for c in ['a', '\0', ' ', 'é'] {
+                let mut t = p.clone();
+                t.push(c);
+                next.push(t);
+            }
+        }
+        strs.extend(next.iter().cloned());
+        layer = next;
+    }
+    strs.extend(["abcd".to_string(), "é€😀".to_string(), "x".repeat(70_000), "\n\t\"\\".to_string()]);
+    for s in strs.iter().map(|s| s.as_str()) {
         evals += 1;
         let o = dr::Operand::from(s.to_string());
         let o2 = dr::Operand::from(s);
         if o != dr::Operand::LiteralString(s.to_string()) || o2 != o || o.unwrap_literal_string() != s {
-            run.add(viol("C17:LiteralString:payload", "string payload does not round-trip", json!({"kind": "c17-payload", "string": s})));
+            run.add(viol("C17:LiteralString:payload", format!("string payload {:?} does not round-trip: From<String> gives {:?}, From<&str> gives {:?}", s.chars().take(20).collect::<String>(), o, o2), json!({"kind": "c17-payload", "string": s.chars().take(64).collect::<String>()})));
         }
     }
     for w in g.insts.iter().step_by(37) {
